@@ -343,11 +343,13 @@ fn classify(rule: &str, input: &str, what: &str) -> String {
             return format!("{rule}_not_followed_by_non_space_whitespace");
         }
         // a leading binary operator keyword separated from a following ':' by whitespace
-        let t = input.trim_start();
+        // (anywhere a clause can start: after whitespace, an occur marker or an opening parenthesis)
         for kw in ["OR", "AND", "NOT"] {
-            if let Some(rest) = t.strip_prefix(kw) {
+            for (p, _) in input.match_indices(kw) {
+                let before_ok = input[..p].chars().last().map(|c| c.is_whitespace() || "+-(".contains(c)).unwrap_or(true);
+                let rest = &input[p + kw.len()..];
                 let r2 = rest.trim_start();
-                if r2.len() < rest.len() && r2.starts_with(':') {
+                if before_ok && r2.len() < rest.len() && r2.starts_with(':') {
                     return format!("{rule}_leading_operator_keyword_before_colon");
                 }
             }
